@@ -3,7 +3,10 @@ package main
 // Instance tables: property × tier -> harness instances (harness function × concrete parameter vector).
 // Each instance is one exhaustive symbolic exploration.
 
-import "time"
+import (
+	"strings"
+	"time"
+)
 
 func P(kv ...interface{}) map[string]int {
 	m := map[string]int{}
@@ -56,6 +59,13 @@ func instancesFor(prop, tier string) []*Instance {
 		c01Instances(add, thorough, 0)
 	case "C09":
 		c01Instances(add, thorough, 1)
+		c02Instances(add, thorough, 1)
+	case "C02":
+		c02Instances(add, thorough, 0)
+	case "C03":
+		c03Instances(add, thorough)
+	case "C15":
+		c15Instances(add, thorough)
 	}
 	return out
 }
@@ -143,5 +153,194 @@ func c01Instances(add func(*Instance), thorough bool, inv int) {
 		add(&Instance{Func: "VerifC01Kernels", Params: P("k", 7, "n", 1, "m", 0)})
 		add(&Instance{Func: "VerifC01Kernels", Params: P("k", 7, "n", 3, "m", 0)})
 		add(&Instance{Func: "VerifC01Kernels", Params: P("k", 7, "n", 5, "m", 0)})
+	}
+}
+
+// bitmap generator parameter sets used by the query properties: name -> params (prefix a)
+type bmShape struct {
+	name string
+	p    map[string]int
+	xb   int // argument window base (used with xm) for shapes that contain bitmap chunks
+	xm   int
+	tier int
+}
+
+func queryBitmaps(thorough bool) []bmShape {
+	out := []bmShape{
+		{"empty", P("ak", 0, "akeys", 0, "acow", 0), 0, -1, 0},
+		{"A1", P("ak", 1, "akeys", 0, "acow", 0, "ac0", 1), 0, -1, 0},
+		{"A2,R1", P("ak", 2, "akeys", 0, "acow", 0, "ac0", 2, "ac1", 201), 0, -1, 0},
+		{"R2@0xFFFF", P("ak", 1, "akeys", 2, "acow", 0, "ac0", 202), 0, -1, 0},
+		{"Rfull,A1 adjacent", P("ak", 2, "akeys", 3, "acow", 0, "ac0", 220, "ac1", 1), 0, -1, 0},
+		{"A1,Rfull adjacent", P("ak", 2, "akeys", 3, "acow", 0, "ac0", 1, "ac1", 220), 0, -1, 0},
+		{"B0@key1 win", P("ak", 2, "akeys", 4, "acow", 0, "ac0", 1, "ac1", 100), 65536 + 4150, 15, 0},
+		{"B3@key0 win-lo", P("ak", 2, "akeys", 4, "acow", 0, "ac0", 103, "ac1", 1), 56, 15, 0},
+		{"B3@key0 win-hi", P("ak", 2, "akeys", 4, "acow", 0, "ac0", 103, "ac1", 1), 65528, 15, 0},
+		{"A3,A1,R1", P("ak", 3, "akeys", 0, "acow", 0, "ac0", 3, "ac1", 1, "ac2", 201), 0, -1, 1},
+		{"Rfull,Rfull,A2 adjacent", P("ak", 3, "akeys", 3, "acow", 0, "ac0", 220, "ac1", 220, "ac2", 2), 0, -1, 1},
+		{"B1@key1 win", P("ak", 2, "akeys", 4, "acow", 0, "ac0", 2, "ac1", 101), 65536 + 4150, 31, 1},
+		{"A*33", P("ak", 1, "akeys", 0, "acow", 0, "ac0", 11), 0, -1, 1},
+	}
+	return out
+}
+
+func c03Instances(add func(*Instance), thorough bool) {
+	for _, b := range queryBitmaps(thorough) {
+		for q := 0; q <= 8; q++ {
+			if q == 6 {
+				continue
+			}
+			if q == 7 && (b.xm >= 0 || strings.Contains(b.name, "Rfull")) {
+				continue // ToArray walks every member: bitmap-chunk shapes are covered by C04's windowed walks
+			}
+			tier := b.tier
+			if q == 5 && b.xm >= 0 {
+				tier = 1 // IntersectsWithInterval walks the words of a bitmap chunk: slow, thorough only
+			}
+			add(&Instance{Func: "VerifC03Query", Tier: tier, Note: b.name, Params: with(b.p, "q", q, "L", 2, "xb", b.xb, "xm", b.xm)})
+		}
+	}
+	// Equals on independent descriptions
+	eq := [][2]map[string]int{
+		{P("ak", 1, "akeys", 0, "acow", 0, "ac0", 2), P("bk", 1, "bkeys", 0, "bcow", 0, "bc0", 201)},
+		{P("ak", 2, "akeys", 0, "acow", 0, "ac0", 1, "ac1", 1), P("bk", 2, "bkeys", 0, "bcow", 0, "bc0", 1, "bc1", 201)},
+		{P("ak", 1, "akeys", 0, "acow", 0, "ac0", 1), P("bk", 2, "bkeys", 0, "bcow", 0, "bc0", 1, "bc1", 1)},
+	}
+	for _, e := range eq {
+		m := with(e[0], "q", 6, "L", 2, "xb", 0, "xm", -1)
+		for k, v := range e[1] {
+			m[k] = v
+		}
+		add(&Instance{Func: "VerifC03Query", Params: m})
+	}
+}
+
+func c15Instances(add func(*Instance), thorough bool) {
+	for _, b := range queryBitmaps(thorough) {
+		for q := 0; q <= 3; q++ {
+			add(&Instance{Func: "VerifC15Neighbour", Tier: b.tier, Note: b.name, Params: with(b.p, "q", q, "L", 2, "xb", b.xb, "xm", b.xm)})
+		}
+	}
+	type cs struct{ k, s, xb, xm, tier int }
+	for _, c := range []cs{{kA, 1, 0, -1, 0}, {kA, 2, 0, -1, 0}, {kA, 3, 0, -1, 0}, {kA, 4, 0, -1, 1}, {kA, 11, 0, -1, 1},
+		{kR, 1, 0, -1, 0}, {kR, 2, 0, -1, 0}, {kR, 12, 0, -1, 0}, {kR, 20, 0, -1, 0}, {kR, 3, 0, -1, 1},
+		{kB, 0, 4150, 15, 0}, {kB, 3, 56, 15, 0}, {kB, 3, 65520, 15, 0}, {kB, 4, 310, 31, 0}, {kB, 1, 4150, 31, 1}} {
+		for q := 0; q <= 3; q++ {
+			add(&Instance{Func: "VerifC15Container", Tier: c.tier, Params: P("q", q, "k", c.k, "s", c.s, "xb", c.xb, "xm", c.xm, "L", 2)})
+		}
+	}
+}
+
+func c02Instances(add func(*Instance), thorough bool, inv int) {
+	base := P("L", 2, "inv", inv, "n", 2, "xb", 0, "xm", -1, "sb", 0, "sm", 0, "eb", 0, "em", 0, "len", 0)
+	small := P("ak", 2, "akeys", 0, "acow", 0, "ac0", 2, "ac1", 201)
+	smallCow := P("ak", 2, "akeys", 0, "acow", 1, "ac0", 1, "ac1", 201)
+	single := P("ak", 2, "akeys", 2, "acow", 0, "ac0", 1, "ac1", 1) // single-value chunks: removal deletes the chunk; last key 0xFFFF
+	// point mutators
+	for _, m := range []int{0, 1, 2, 3, 4} {
+		for _, sh := range []map[string]int{small, smallCow, single} {
+			if m == 2 && len(sh) != len(small) {
+				continue
+			}
+			pp := with(base, "m", m)
+			for k, v := range sh {
+				pp[k] = v
+			}
+			add(&Instance{Func: "VerifC02Step", Params: pp})
+		}
+		if m == 2 {
+			continue
+		}
+		// conversion edges (argument confined to a window)
+		type edge struct {
+			name    string
+			p       map[string]int
+			xb, xm  int
+			tier    int
+		}
+		edges := []edge{
+			{"A*(4096;2): 4097th insert", P("ak", 1, "akeys", 0, "acow", 0, "ac0", 13), 30720, 31, 0},
+			{"A*(4095;2)", P("ak", 1, "akeys", 0, "acow", 0, "ac0", 12), 32752, 31, 1},
+			{"B(thr): 4097 -> 4096", P("ak", 2, "akeys", 4, "acow", 0, "ac0", 102, "ac1", 1), 120, 15, 0},
+			{"B(hi): one short of full", P("ak", 1, "akeys", 4, "acow", 0, "ac0", 103), 65528, 7, 0},
+			{"Rfull", P("ak", 2, "akeys", 3, "acow", 0, "ac0", 220, "ac1", 1), 0, -1, 0},
+			{"R(2) free lengths", P("ak", 1, "akeys", 0, "acow", 0, "ac0", 212), 0, -1, 1},
+			{"R(1) free length", P("ak", 1, "akeys", 0, "acow", 0, "ac0", 211), 0, -1, 0},
+			{"B(lo) cow", P("ak", 2, "akeys", 4, "acow", 1, "ac0", 100, "ac1", 1), 4150, 15, 1},
+		}
+		for _, e := range edges {
+			pp := with(base, "m", m, "xb", e.xb, "xm", e.xm)
+			for k, v := range e.p {
+				pp[k] = v
+			}
+			add(&Instance{Func: "VerifC02Step", Params: pp, Tier: e.tier, Note: e.name})
+		}
+	}
+	// AddMany
+	for _, n := range []int{1, 2, 3} {
+		pp := with(base, "m", 5, "n", n)
+		for k, v := range small {
+			pp[k] = v
+		}
+		in := &Instance{Func: "VerifC02Step", Params: pp}
+		if n == 3 {
+			in.Tier = 1
+		}
+		add(in)
+	}
+	add(&Instance{Func: "VerifC02Step", Params: with(base, "m", 5, "n", 2, "xb", 30720, "xm", 31, "ak", 1, "akeys", 0, "acow", 0, "ac0", 13), Note: "AddMany across the 4096 edge"})
+	// range mutators
+	three := P("ak", 3, "akeys", 4, "acow", 0, "ac0", 2, "ac1", 201, "ac2", 1)
+	two := P("ak", 2, "akeys", 4, "acow", 0, "ac0", 2, "ac1", 201)
+	top := P("ak", 2, "akeys", 2, "acow", 0, "ac0", 1, "ac1", 2)
+	bmp := P("ak", 2, "akeys", 4, "acow", 0, "ac0", 1, "ac1", 100)
+	full := P("ak", 2, "akeys", 4, "acow", 0, "ac0", 220, "ac1", 1)
+	for _, m := range []int{6, 7, 8} {
+		ln := 7
+		if m == 8 {
+			ln = 3
+		}
+		type rg struct {
+			p                    map[string]int
+			sb, sm, eb, em, ln   int
+			tier                 int
+		}
+		topTier := 0
+		if m == 8 {
+			topTier = 1
+		}
+		rgs := []rg{
+			{two, 0, 262143, 0, 0, ln, 0},                                   // short range anywhere in keys 0..3 (free low bits)
+			{three, 65528, 15, 131064, 15, -1, 1},                           // long: from the end of chunk 0 across chunk 1 into chunk 2
+			{P("ak", 3, "akeys", 4, "acow", 0, "ac0", 1, "ac1", 220, "ac2", 1), 65528, 15, 131064, 15, -1, 0}, // same with tiny chunks
+			{three, 0, 7, 196600, 15, -1, 1},                                // covers every chunk
+			{top, 4294967280, 15, 4294967288, 15, -1, topTier},              // up to 2^32
+			{top, 4294901752, 15, 4294967288, 15, -1, 1},                    // whole last chunk region, e up to 2^32
+			{bmp, 65536 + 4150, 15, 65536 + 4200, 15, -1, 0},                // inside a bitmap chunk, word edges
+			{bmp, 65536 + 60, 7, 65536 + 65528, 7, -1, 1},                   // almost the whole bitmap chunk (-> full / empty)
+			{full, 100, 7, 65530, 7, -1, 0},                                 // inside a full run chunk
+			{P("ak", 1, "akeys", 4, "acow", 1, "ac0", 212), 0, 65535, 0, 0, ln, 1}, // free run lengths, cow
+			{P("ak", 1, "akeys", 4, "acow", 1, "ac0", 202), 0, 65535, 0, 0, 3, topTier},  // short runs, cow
+			{P("ak", 1, "akeys", 4, "acow", 1, "ac0", 201), 0, 65535, 0, 0, 3, 0},        // one short run, cow
+			{two, 0, 262143, 0, 0, 7, 1},
+			{P("ak", 1, "akeys", 4, "acow", 0, "ac0", 13), 30720, 31, 30800, 31, -1, 1}, // range on a 4096-element array
+		}
+		for _, r := range rgs {
+			pp := with(base, "m", m, "sb", r.sb, "sm", r.sm, "eb", r.eb, "em", r.em, "len", r.ln)
+			for k, v := range r.p {
+				pp[k] = v
+			}
+			add(&Instance{Func: "VerifC02Step", Params: pp, Tier: r.tier})
+		}
+	}
+	// content-neutral maintenance calls
+	for _, m := range []int{9, 10, 11, 12, 13} {
+		for _, sh := range []map[string]int{smallCow, P("ak", 2, "akeys", 4, "acow", 1, "ac0", 212, "ac1", 3), P("ak", 1, "akeys", 4, "acow", 0, "ac0", 100)} {
+			pp := with(base, "m", m)
+			for k, v := range sh {
+				pp[k] = v
+			}
+			add(&Instance{Func: "VerifC02Step", Params: pp})
+		}
 	}
 }
